@@ -219,6 +219,15 @@ func GenCase(r *core.Rand, pr Profile) []string {
 		case 3:
 			rt = " rt=clone" // a RoundTripper wrapper that sends a clone of the request
 		}
+		if pr.Rich && mode == "seq" && listener == "plain" && r.Chance(1, 60) {
+			// a keep-alive connection kept busy for longer than the proxy's idle timeout
+			ops = append(ops, "conn mode=seq listener=plain shutdown=0 to=500 gap=200")
+			for i := 0; i < 5; i++ {
+				ops = append(ops, genXm(r, Profile{}, false, false, true))
+			}
+			ops = append(ops, "end")
+			return ops
+		}
 		ops = append(ops, "conn mode="+mode+" listener="+listener+" shutdown=0"+rt)
 		for i := 0; i < n; i++ {
 			ops = append(ops, genXm(r, pr, listener == "tls", (mode != "pipe" && mode != "half") || i == n-1, mode == "seq" || mode == "dribble"))
